@@ -9,7 +9,7 @@
     single-element move (into an existing bucket or a new bucket at any position) improves the score of the
     returned ranking by more than the threshold ([C08_bio_one], [C08_bioconsert_local_optimum]). *)
 From Corankco Require Import Prelude Scheme Rank KemenySpec CostTable OptTheory Markov Borda BioConsert BioDelta
-     Judge.JBio BioProof BioMoves BioArrays BioLoop BioAlgo.
+     Judge.JBio BioProof BioMoves BioArrays BioLoop BioAlgo BioUser.
 Local Open Scope Z_scope.
 
 Theorem C08_local_opt_sound : forall K n r thr,
@@ -83,3 +83,17 @@ Proof.
   intros d Hd. apply fuel_for_enough. exact Hd.
 Qed.
 Print Assumptions C08_bioconsert_terminates.
+
+(** in the terms of the statement: for every ranking c returned (a ranking over the elements, with the reported
+    generalized Kemeny score), moving a single element into any existing bucket (doubled position 2b) or into a new
+    bucket before any position (2p-1) never lowers the score by more than the threshold *)
+Theorem C08_local_optimum_over_elements : forall s D one deps sc rs fuel,
+  valid s -> let U := universe D in let n := length U in let K := cost_table s D in
+  (0 < n)%nat -> deps <> [] -> Forall (fun d => exists m, DenseTo n d m) deps ->
+  bioconsert_on fuel one s D deps = Some (sc, rs) ->
+  forall c, In c rs -> exists v, c = decode_vec U v /\ kemeny_spec s D c = sc /\
+    forall e, (e < n)%nat ->
+      (forall b, 0 <= b <= vmax v -> kemeny_spec s D c - THR <= kemeny_spec s D (relabel U (moved_ranking n v e (2 * b)))) /\
+      (forall p, 0 <= p <= vmax v + 1 -> kemeny_spec s D c - THR <= kemeny_spec s D (relabel U (moved_ranking n v e (2 * p - 1)))).
+Proof. exact bioconsert_local_optimum. Qed.
+Print Assumptions C08_local_optimum_over_elements.
